@@ -768,6 +768,8 @@ func (tw *TumblingWindow) sendResult(data []types.Row) {
 // For ProcessingTime: called by timer
 // For EventTime: called by watermark updates
 func (tw *TumblingWindow) Trigger() {
+	verifhook.At("tw.ptrig", tw, 0, 0, 0)
+	defer verifhook.At("tw.ptrigdone", tw, 0, 0, 0)
 	// Determine time characteristic
 	timeChar := tw.config.TimeCharacteristic
 	if timeChar == "" {
